@@ -4,6 +4,7 @@ package cache
 
 import (
 	"context"
+	"time"
 
 	"github.com/miekg/dns"
 	"github.com/semihalev/sdns/middleware"
@@ -30,4 +31,30 @@ func VerifC07Cached(c *Cache, req *dns.Msg) *dns.Msg {
 func VerifC07AdditionalAnswer(ctx context.Context, q middleware.Queryer, msg *dns.Msg) *dns.Msg {
 	c := &Cache{queryer: q}
 	return c.additionalAnswer(ctx, msg)
+}
+
+// VerifC07AgeFailures moves the retry deadline of every cached resolution
+// failure (RFC 9520 state only) d into the past: the back-off has run out,
+// record TTLs are untouched. Same technique as the l3 VerifShift accessor.
+func VerifC07AgeFailures(c *Cache, d time.Duration) {
+	fc := c.failure
+	if fc == nil || fc.entries == nil {
+		return
+	}
+	type kv struct {
+		k uint64
+		v *failureEntry
+	}
+	var all []kv
+	fc.entries.ForEach(func(key uint64, v any) bool {
+		if fe, ok := v.(*failureEntry); ok {
+			all = append(all, kv{key, fe})
+		}
+		return true
+	})
+	for _, e := range all {
+		cp := *e.v
+		cp.retryAfter = cp.retryAfter.Add(-d)
+		fc.entries.Add(e.k, &cp)
+	}
 }
